@@ -435,6 +435,9 @@ pub struct TwoLevelIterator {
 
     /// The block handle used to get the data block in the [`TwoLevelIterator::data_block`] field.
     data_block_handle: Option<BlockHandle>,
+
+    /// The error that made the iterator invalid, if it was an error that ended the iteration.
+    maybe_error: Option<RainDBError>,
 }
 
 /// Private methods
@@ -449,7 +452,29 @@ impl TwoLevelIterator {
             index_block_iter,
             maybe_data_block_iter: None,
             data_block_handle: None,
+            maybe_error: None,
         }
+    }
+
+    /// Become invalid because of the provided error and keep the error for `status()`.
+    fn fail(&mut self, error: RainDBError) {
+        self.maybe_data_block_iter = None;
+        self.data_block_handle = None;
+        self.maybe_error = Some(error);
+    }
+
+    /// Position the iterator with `position` and keep the error, if there is one.
+    fn positioned_by(
+        &mut self,
+        position: impl FnOnce(&mut Self) -> Result<(), RainDBError>,
+    ) -> Result<(), RainDBError> {
+        self.maybe_error = None;
+        let result = position(self);
+        if let Err(error) = &result {
+            self.fail(error.clone());
+        }
+
+        result
     }
 
     fn init_data_block(&mut self) -> TableReadResult<()> {
@@ -546,48 +571,54 @@ impl RainDbIterator for TwoLevelIterator {
     }
 
     fn seek(&mut self, target: &Self::Key) -> Result<(), Self::Error> {
-        self.index_block_iter.seek(target)?;
-        self.init_data_block()?;
+        self.positioned_by(|iter| {
+            iter.index_block_iter.seek(target)?;
+            iter.init_data_block()?;
 
-        if self.maybe_data_block_iter.is_some() {
-            self.maybe_data_block_iter.as_mut().unwrap().seek(target)?;
-        }
+            if iter.maybe_data_block_iter.is_some() {
+                iter.maybe_data_block_iter.as_mut().unwrap().seek(target)?;
+            }
 
-        self.skip_empty_data_blocks_forward()?;
+            iter.skip_empty_data_blocks_forward()?;
 
-        Ok(())
+            Ok(())
+        })
     }
 
     fn seek_to_first(&mut self) -> Result<(), Self::Error> {
-        self.index_block_iter.seek_to_first()?;
-        self.init_data_block()?;
+        self.positioned_by(|iter| {
+            iter.index_block_iter.seek_to_first()?;
+            iter.init_data_block()?;
 
-        if self.maybe_data_block_iter.is_some() {
-            self.maybe_data_block_iter
-                .as_mut()
-                .unwrap()
-                .seek_to_first()?;
-        }
+            if iter.maybe_data_block_iter.is_some() {
+                iter.maybe_data_block_iter
+                    .as_mut()
+                    .unwrap()
+                    .seek_to_first()?;
+            }
 
-        self.skip_empty_data_blocks_forward()?;
+            iter.skip_empty_data_blocks_forward()?;
 
-        Ok(())
+            Ok(())
+        })
     }
 
     fn seek_to_last(&mut self) -> Result<(), Self::Error> {
-        self.index_block_iter.seek_to_last()?;
-        self.init_data_block()?;
+        self.positioned_by(|iter| {
+            iter.index_block_iter.seek_to_last()?;
+            iter.init_data_block()?;
 
-        if self.maybe_data_block_iter.is_some() {
-            self.maybe_data_block_iter
-                .as_mut()
-                .unwrap()
-                .seek_to_last()?;
-        }
+            if iter.maybe_data_block_iter.is_some() {
+                iter.maybe_data_block_iter
+                    .as_mut()
+                    .unwrap()
+                    .seek_to_last()?;
+            }
 
-        self.skip_empty_data_blocks_backward()?;
+            iter.skip_empty_data_blocks_backward()?;
 
-        Ok(())
+            Ok(())
+        })
     }
 
     fn next(&mut self) -> Option<(&Self::Key, &Vec<u8>)> {
@@ -608,6 +639,7 @@ impl RainDbIterator for TwoLevelIterator {
                     error: {}",
                     error
                 );
+                self.fail(error.into());
                 return None;
             }
         }
@@ -638,6 +670,7 @@ impl RainDbIterator for TwoLevelIterator {
                     error: {}",
                     error
                 );
+                self.fail(error.into());
                 return None;
             }
         }
@@ -656,6 +689,10 @@ impl RainDbIterator for TwoLevelIterator {
         }
 
         self.maybe_data_block_iter.as_ref().unwrap().current()
+    }
+
+    fn status(&self) -> Option<Self::Error> {
+        self.maybe_error.clone()
     }
 }
 
